@@ -291,6 +291,7 @@ func (o *Orch) workerEnv() []string {
 
 func (o *Orch) runShard(i, n int) {
 	skip := int64(0)
+	hangs := 0
 	for attempt := 0; attempt < 40; attempt++ {
 		out := filepath.Join(o.Work, fmt.Sprintf("w%d-%d.json", i, attempt))
 		jf := filepath.Join(o.Work, fmt.Sprintf("w%d.journal", i))
@@ -358,6 +359,15 @@ func (o *Orch) runShard(i, n int) {
 			o.Merged.Counters["worker_hang"]++
 			o.mu.Unlock()
 			fmt.Printf("HANG property=%s kind=%s case=%s\n", o.P.ID, kind, clipN(string(cs), 400))
+			// every hang costs the watchdog's patience; a tree on which case after case blocks for ever (a deadlock) would keep
+			// the check busy for hours. After five hangs the shard is given up: what it has not run is inconclusive
+			if hangs++; hangs >= 5 {
+				o.mu.Lock()
+				o.Merged.Inconclusive["shard-given-up-after-5-hangs"]++
+				o.mu.Unlock()
+				fmt.Printf("INCONCLUSIVE property=%s shard %d/%d given up after %d hangs; its cases from #%d on were not run\n", o.P.ID, i, n, hangs, seq+1)
+				return
+			}
 		default:
 			o.AddViolation(Violation{Kind: kind, Case: cs, Crash: true,
 				Detail: fmt.Sprintf("worker process died (exit=%d) while running this case:\n%s", code, firstFatal(tail))})
